@@ -41,7 +41,16 @@ func addInitialSolution(
 			if _, defined := inputStopIDToModelStopIndex[initialStop.ID]; defined {
 				modelStop = modelStops[inputStopIDToModelStopIndex[initialStop.ID]]
 			} else {
-				modelStop, err = model.Stop(data.stopIDToIndex[alternateStopID(initialStop.ID, inputVehicle)])
+				index, listed := data.stopIDToIndex[alternateStopID(initialStop.ID, inputVehicle)]
+				if !listed {
+					return nil, nmerror.NewInputDataError(fmt.Errorf(
+						"initial stop `%s` on vehicle `%s` is an alternate stop"+
+							" that is not in the alternate stops of the vehicle",
+						initialStop.ID,
+						inputVehicle.ID,
+					))
+				}
+				modelStop, err = model.Stop(index)
 				if err != nil {
 					return nil, err
 				}
